@@ -120,6 +120,10 @@ func (e *env) fresh() *world {
 	}
 	w.VerifSetState("", 1, true) // as after a restart: password only on disk, locked
 	w.VerifSetClient(e.q.Client(), e.api)
+	ticket.locked = true
+	if err := w.RegisterMineStatusReporter(ticket); err != nil {
+		panic(err)
+	}
 	return &world{w: w, addr: e.addr}
 }
 
@@ -205,6 +209,12 @@ func sleep(sec int64) step {
 type scenario struct {
 	name    string
 	threads [][]step
+	// ticketOpen: the node mines; the wallet is locked but its ticket lock is open when the scenario starts
+	ticketOpen bool
+}
+
+func ticketRelock() step {
+	return func(wd *world, th string) { ticket.relock() }
 }
 
 // oracle: every observation that saw the wallet unlocked (or obtained a secret / a signature) must
@@ -308,16 +318,18 @@ func main() {
 	r.DistinctSet = "outcomes"
 	e := setup()
 	scs := []scenario{
-		{"W1-setpw-wrong-locked", [][]step{{setpw(pwWrong, pwNew)}, {obsStatus(), obsIsLocked()}, {obsDump()}}},
-		{"W2-setpw-right-locked", [][]step{{setpw(pwRight, pwNew)}, {obsStatus(), obsStatus()}, {obsDump(), obsSeed(pwRight)}}},
-		{"W3-unlock-lock", [][]step{{unlock(pwRight, 0), lock()}, {obsStatus(), obsDump()}, {obsSign(e)}}},
-		{"W4-wrong-unlock+wrong-setpw", [][]step{{unlock(pwWrong, 0)}, {setpw(pwWrong, pwNew)}, {obsStatus(), obsDump()}}},
-		{"W5-timeout", [][]step{{unlock(pwRight, 1)}, {obsStatus(), sleep(2), obsStatus(), obsDump()}}},
-		{"W6-unlock/setpw-wrong/lock", [][]step{{unlock(pwRight, 0)}, {setpw(pwWrong, pwNew)}, {lock()}, {obsStatus(), obsStatus()}}},
-		{"W7-unlock-setpw-lock", [][]step{{unlock(pwRight, 0), setpw(pwRight, pwNew), lock()}, {obsDump(), obsStatus()}, {obsSeed(pwNew)}}},
-		{"W9-second-timed-unlock-after-expiry", [][]step{{unlock(pwRight, 1), sleep(2), unlock(pwRight, 1), sleep(3)}, {sleep(4), obsStatus(), obsDump()}, {sleep(4), obsSeed(pwRight)}}},
-		{"W10-timed-unlock-rearmed-while-pending", [][]step{{unlock(pwRight, 3), sleep(1), unlock(pwRight, 1)}, {sleep(5), obsStatus(), obsSign(e)}}},
-		{"W8-timeout-vs-setpw", [][]step{{unlock(pwRight, 1), sleep(2), setpw(pwWrong, pwNew)}, {sleep(2), obsStatus(), obsSign(e)}}},
+		{"W1-setpw-wrong-locked", [][]step{{setpw(pwWrong, pwNew)}, {obsStatus(), obsIsLocked()}, {obsDump()}}, false},
+		{"W2-setpw-right-locked", [][]step{{setpw(pwRight, pwNew)}, {obsStatus(), obsStatus()}, {obsDump(), obsSeed(pwRight)}}, false},
+		{"W3-unlock-lock", [][]step{{unlock(pwRight, 0), lock()}, {obsStatus(), obsDump()}, {obsSign(e)}}, false},
+		{"W4-wrong-unlock+wrong-setpw", [][]step{{unlock(pwWrong, 0)}, {setpw(pwWrong, pwNew)}, {obsStatus(), obsDump()}}, false},
+		{"W5-timeout", [][]step{{unlock(pwRight, 1)}, {obsStatus(), sleep(2), obsStatus(), obsDump()}}, false},
+		{"W6-unlock/setpw-wrong/lock", [][]step{{unlock(pwRight, 0)}, {setpw(pwWrong, pwNew)}, {lock()}, {obsStatus(), obsStatus()}}, false},
+		{"W7-unlock-setpw-lock", [][]step{{unlock(pwRight, 0), setpw(pwRight, pwNew), lock()}, {obsDump(), obsStatus()}, {obsSeed(pwNew)}}, false},
+		{"W9-second-timed-unlock-after-expiry", [][]step{{unlock(pwRight, 1), sleep(2), unlock(pwRight, 1), sleep(3)}, {sleep(4), obsStatus(), obsDump()}, {sleep(4), obsSeed(pwRight)}}, false},
+		{"W10-timed-unlock-rearmed-while-pending", [][]step{{unlock(pwRight, 3), sleep(1), unlock(pwRight, 1)}, {sleep(5), obsStatus(), obsSign(e)}}, false},
+		{"W11-locked-wallet-ticket-relocked", [][]step{{ticketRelock()}, {obsDump(), obsSeed(pwRight)}, {obsSign(e)}}, true},
+		{"W12-lock-request-while-ticket-open", [][]step{{lock(), ticketRelock()}, {obsDump(), obsStatus()}, {obsSign(e)}}, true},
+		{"W8-timeout-vs-setpw", [][]step{{unlock(pwRight, 1), sleep(2), setpw(pwWrong, pwNew)}, {sleep(2), obsStatus(), obsSign(e)}}, false},
 	}
 	bound := r.Pick(5, 9)
 	var lastWorld *world
@@ -326,6 +338,7 @@ func main() {
 		body := func() {
 			wd = e.fresh()
 			lastWorld = wd
+			ticket.locked = !sc.ticketOpen
 			for i, th := range sc.threads {
 				th := th
 				name := fmt.Sprintf("T%d", i+1)
